@@ -96,6 +96,59 @@ class Prompt(Stage):
         return res
 
 
+class RealGdb(Stage):
+    """the halting decision end to end in the real gdb: a generated C mock of libwayland runs under gdb 13 with the unmodified
+    plugin and a breakpoint matcher; the messages at which gdb actually halts the program must be those the model says"""
+    name = 'real-gdb'
+
+    def examples(self, tier):
+        return 6 if tier == 'quick' else 14 * 30
+
+    def gen(self, d, tier):
+        gens, steps, t = {}, [], 0
+        for _ in range(d.int(4, 20)):
+            addr = d.int(0, 1)
+            g = gens.get(addr)
+            if g is None:
+                g = gens[addr] = histgen.ConnGen(None, d.choice(['client', 'server']), dict(reuse=0.6, weights=WEIGHTS))
+            t += histgen.next_gap(d)
+            m = g.next(d)
+            m['conn'] = None
+            m['t_us'] = t
+            P = histgen.protocols()
+            decl = P[m['iface']].msg(m['name']) if m['iface'] in P and not (m['iface'] == 'wl_registry' and m['name'] == 'bind') else None
+            steps.append(gdbsim.closure_of_message(m, g.side, addr, decl))
+        bt = d.choice(['*', '* ! .delete_id', 'wl_display, wl_registry', '.sync, .bind, .get_registry', '* ! wl_callback', 'wl_*', '.new', 'wl_display ! .sync', 'B:'])
+        return dict(steps=steps, break_text=bt)
+
+    def execute(self, case):
+        from .. import gdbreal, cli
+        res = Result()
+        with cli.Scratch() as sc:
+            r = gdbreal.run_steps(case['steps'], sc, commands=['breakpoint ' + case['break_text']])
+        if r['status'].startswith('skipped'):
+            res.label('real-gdb-' + r['status'][:40])
+            return res
+        if r['status'] != 'ok':
+            from ..runner import HarnessError
+            raise HarnessError(r['status'])
+        drv = gdbsim.Driver(break_text=case['break_text'])
+        try:
+            stops = [bool(drv.deliver(st)) for st in case['steps']]
+        finally:
+            drv.close()
+        expected = [i + 1 for i, st in enumerate(stops) if st]
+        res.evals = len(case['steps'])
+        if len(r['records']) != len(case['steps']):
+            res.bad('real-gdb:messages-seen', '%d of %d closures reached the plugin; gdb said %r' % (len(r['records']), len(case['steps']), r.get('gdb_output', '')[-300:]))
+        elif r.get('halts') != expected:
+            res.bad('real-gdb:halts', 'breakpoint %r: real gdb halted the program after messages %r, the plugin on the stand-in says %r' % (case['break_text'], r.get('halts'), expected))
+        res.nontrivial = 0 < len(expected) < len(stops)
+        res.label('real-gdb-ran')
+        res.sample = dict(break_text=case['break_text'], halts=r.get('halts'), messages=[st['target_iface'] + '.' + st['name'] for st in case['steps']])
+        return res
+
+
 class C10(Prop):
     id = 'C10'
     rule = ('plugin-machine: Hypothesis rule-based machine on the real Plugin + Controller over a gdb stand-in: rules = a generated message on '
@@ -104,11 +157,12 @@ class C10(Prop):
             'plugin\'s gdb.Command objects; after every step stop() must be True iff the message matches the accumulated breakpoint (model of '
             'C12, atoms parsed independently) and belongs to the selection, with exactly one "Stopped at" notice naming it, and gdb must have '
             'executed `continue` iff the command was resume, `quit` iff quit, nothing otherwise. prompt-loop: TerminalUI with scripted input '
-            'prompts exactly until the first resume/quit. non-trivial = history with a halting and a non-halting message, a breakpoint in force '
+            'prompts exactly until the first resume/quit. real-gdb: a generated C mock of libwayland under the real gdb with the unmodified plugin and a '
+            'breakpoint matcher; the messages after which gdb halts the program must be those for which stop() is True on the stand-in. non-trivial = history with a halting and a non-halting message, a breakpoint in force '
             'and >= 1 command; distinct by SHA-1 of the op list.')
     assumptions = ['fakegdb stand-in for the gdb module; closures are converted from well-formed generated histories',
                    'breakpoint accumulation model shared with C12 (absorbed alternatives unspecified: skipped and counted)']
-    stages = [Machine(), Prompt()]
+    stages = [Machine(), Prompt(), RealGdb()]
 
 
 gdbsim.install()
